@@ -17,7 +17,7 @@ import (
 )
 
 func TestMain(m *testing.M) {
-	vstat.Rule("A prior history of 0-8 pool operations (add, re-weight incl. to 0, remove) on a fresh RoundRobin ends in a pool of 1-6 servers with weights from mixed classes (small, common factor, very unequal up to 4096/65535, zeros); then a generated warm-up offset and 2W..3W+r selections through NextServer or ServeHTTP. Oracle (from the weights alone): with g=gcd, W=sum/g, every window of W consecutive selections contains server i exactly w_i/g times; zero-weight servers never; all-zero/empty pool => error and no forwarded request. Concurrent variant: G goroutines make k*W selections in total, the multiset must be exactly k*w_i/g. Non-trivial: >=2 servers with distinct positive weights, or a zero weight, or g>1, or a non-empty prior history with a re-weight/remove, or an offset that is not a multiple of W.")
+	vstat.Rule("A prior history of 0-8 pool operations (add, re-weight incl. to 0, remove) on a fresh RoundRobin ends in a pool of 1-6 servers with weights from mixed classes (small, common factor, very unequal up to 4096/65535, zeros); then a generated warm-up offset and 2W..3W+r selections through NextServer or ServeHTTP. Oracle (from the weights alone): with g=gcd, W=sum/g, every window of W consecutive selections contains server i exactly w_i/g times; zero-weight servers never; all-zero/empty pool => error and no forwarded request. Concurrent variant: G goroutines make k*W selections in total, the multiset must be exactly k*w_i/g. Non-trivial: >=2 servers with distinct positive weights, or a zero weight, or g>1, or a non-empty prior history with a re-weight/remove, or an offset that is not a multiple of W. Later additions: a sixth of the pools scaled by a common factor up to 5*2^52 (rotations too long to run are checked through the per-rotation upper bound), a twelfth with 250-330 members of which 1-4 have a positive weight, a quarter of the balancers with sticky sessions on and every request carrying an unusable affinity cookie.")
 	vstat.Main(m.Run)
 }
 
